@@ -303,6 +303,20 @@ func impEngine(workdir, bin string) {
 			fmt.Fprintln(out, w.begin())
 		case "import":
 			fmt.Fprintln(out, w.doImport(f))
+		case "importlive":
+			// the import command run while an instance is active on the store (a rules service holds the directory open
+			// in this process): must be refused — what it wrote would be invisible to, and overwritten by, the running instance
+			lctx, lcancel := context.WithCancel(context.Background())
+			live, lerr := standardrules.New(lctx, standardrules.WithStoragePath(w.storage()))
+			if lerr != nil {
+				lcancel()
+				fmt.Fprintln(out, "bad:live-open")
+				break
+			}
+			res := w.doImport(f)
+			live.Close(context.Background())
+			lcancel()
+			fmt.Fprintln(out, res)
 		case "export":
 			fmt.Fprintln(out, w.doExport())
 		case "importbulk":
